@@ -167,17 +167,8 @@ def run(ctx):
 
     # ---------------- 3. fixed adversarial timing families on the public API
     for label, make, sizes in timing_families(ctx):
-        ts = []
-        for n in sizes:
-            t0 = time.perf_counter()
-            try:
-                make(n)
-            except Exception:  # noqa: BLE001
-                pass
-            ts.append(time.perf_counter() - t0)
-            evaluations += 1
-            if ts[-1] > 2.0:
-                break
+        ts = timed_series(make, sizes)
+        evaluations += len(ts)
         hist["family:" + label] = round(max(ts), 4)
         distinct.add(label)
         # exponential: time keeps doubling over the last three sizes and is no longer negligible
@@ -203,28 +194,61 @@ def run(ctx):
     }
 
 
+def _series_worker(make, sizes, conn):
+    for n in sizes:
+        t0 = time.perf_counter()
+        try:
+            make(n)
+        except BaseException:  # noqa: BLE001
+            pass
+        dt = time.perf_counter() - t0
+        conn.send(dt)
+        if dt > 2.0:
+            break
+    conn.close()
+
+
+def timed_series(make, sizes, limit=8.0):
+    """time make(n) for growing n in a forked child so that a stalled call can be killed; a call that never returns counts as `limit`"""
+    import multiprocessing as mp
+
+    ctxm = mp.get_context("fork")
+    parent, child = ctxm.Pipe(duplex=False)
+    p = ctxm.Process(target=_series_worker, args=(make, sizes, child))
+    p.start()
+    child.close()
+    ts = []
+    deadline = time.time() + limit
+    while True:
+        left = deadline - time.time()
+        if left <= 0:
+            ts.append(limit)
+            break
+        if parent.poll(left):
+            try:
+                ts.append(parent.recv())
+            except EOFError:
+                break
+            if ts[-1] > 2.0:
+                break
+        else:
+            ts.append(limit)
+            break
+    if p.is_alive():
+        p.kill()
+    p.join()
+    return ts
+
+
 def confirm(kind, pre, u, tail):
     """time the real parser on prefix + unit*k + tail for growing k; exponential if it keeps multiplying"""
     if kind == "attr":
         f = lambda s: sansldap.LDAPFilter.from_string("(" + s + "=x)")
     else:
         f = PS.CLS[kind].from_string
-    ts = []
-    ks = []
-    k = 8
-    while k <= 64:
-        s = pre + u * k + tail
-        t0 = time.perf_counter()
-        try:
-            f(s)
-        except Exception:  # noqa: BLE001
-            pass
-        dt = time.perf_counter() - t0
-        ts.append(dt)
-        ks.append(k)
-        if dt > 1.0:
-            break
-        k += 2
+    ks = list(range(8, 66, 2))
+    ts = timed_series(lambda k: f(pre + u * k + tail), ks, limit=6.0)
+    ks = ks[: len(ts)]
     big = [t for t in ts if t > 0.002]
     expo = len(big) >= 4 and all(b > 1.5 * a for a, b in zip(big[-4:], big[-3:])) and ts[-1] > 0.2
     return {"k": ks, "seconds": [round(t, 4) for t in ts], "exponential": bool(expo)}
